@@ -258,15 +258,37 @@ pub fn execute(sc: &SymScenario) -> (Vec<Violation>, Counters, u64, u64, u64) {
         .collect();
     let plain = run_dfs(sc, false, 0);
     let sym = run_dfs(sc, true, 0x51);
+    // a single-threaded simulation with a given seed and chooser replays the same trace, also with
+    // symmetry reduction on and several initial states
+    if model.init_states().iter().any(|s| model.within_boundary(s)) {
+        let mut one = sc.clone();
+        one.threads = 1;
+        if let (Ok((a, _, _, _)), Ok((b, _, _, _))) = (run_checker(&one, true, 0x1111, true), run_checker(&one, true, 0x2222, true)) {
+            c.inc("seed_replay_with_symmetry_comparisons");
+            if a.visited != b.visited {
+                let n = a.visited.iter().zip(b.visited.iter()).take_while(|(x, y)| x == y).count();
+                v.push(Violation::new("C12", "seed-replay:symmetry", format!("two single-threaded simulation runs with seed {} diverge after {} states: {:?} vs {:?}", sc.sched.seed, n, a.visited.get(n), b.visited.get(n))));
+            }
+        }
+    }
     // the simulation strategy with symmetry: reported paths must be executions of the original model
     // (it never stops by itself when no initial state is inside the boundary)
     let has_init = model.init_states().iter().any(|s| model.within_boundary(s));
     if !has_init {
         c.inc("symmetry_no_in_boundary_init");
-    } else if let Ok((so, _, _, _)) = run_checker(sc, true, 0x77, true) {
+    } else {
+      match run_checker(sc, true, 0x77, true) {
+      Err(e) => {
+        if e == "panic" {
+            v.push(Violation::new("C10", "path:Simulation", "simulation with symmetry: discoveries() (path reconstruction) panicked".to_string()));
+            v.push(Violation::new("C03", "path-not-executable:Simulation+symmetry", "simulation with symmetry: discoveries() panicked while rebuilding a path".to_string()));
+        }
+      }
+      Ok((so, _, _, _)) => {
         c.inc("simulation_with_symmetry_runs");
         if let Some(b) = &so.bad_path {
             v.push(Violation::new("C10", "path:Simulation", format!("simulation with symmetry: {}", b)));
+            v.push(Violation::new("C03", "path-not-executable:Simulation+symmetry", format!("simulation with symmetry: {}", b)));
         }
         for (name, states) in &so.discoveries {
             let i = QN.iter().position(|n| n == name).unwrap();
@@ -274,8 +296,11 @@ pub fn execute(sc: &SymScenario) -> (Vec<Violation>, Counters, u64, u64, u64) {
             let last = states.last().unwrap();
             if *always == holds(pred, last) {
                 v.push(Violation::new("C10", "path:Simulation", format!("simulation with symmetry: the path for {} ends in {:?}, which is no witness", name, last)));
+                v.push(Violation::new("C03", "last-state-not-witness:Simulation+symmetry", format!("simulation with symmetry: the path for {} ends in {:?}, which is no witness", name, last)));
             }
         }
+      }
+      }
     }
     let (mut sig, mut steps, mut clock) = (0, 0, 0);
     match (plain, sym) {
@@ -315,6 +340,7 @@ pub fn execute(sc: &SymScenario) -> (Vec<Violation>, Counters, u64, u64, u64) {
             }
             if let Some(b) = &s.bad_path {
                 v.push(Violation::new("C10", "path", format!("with symmetry: {}", b)));
+                v.push(Violation::new("C03", "path-not-executable:Dfs+symmetry", format!("DFS with symmetry: {}", b)));
             }
             if let Some(b) = &p.bad_path {
                 v.push(Violation::new("C10", "path", format!("without symmetry: {}", b)));
